@@ -74,6 +74,11 @@ def make_feedback(report, f, i, style=0, parent=None):
     if parent is not None:
         kw["parent"] = parent
     fields = fm(f["flds"])
+    if style % 3 == 2 and f["valence"] != "none" and f["kind"] != "none":
+        # a feedback function in the style of gently()/explain(): the CLASS has its own defaults (negative valence, a kind,
+        # a priority) and the call states every attribute explicitly - the explicit value wins, also when it is 0
+        base = type("Opinionated", (Feedback,), {"valence": -1, "kind": "Mistake", "muted": True, "unscored": True})
+        return base(fields=fields, activate=f["trig"], report=report, **kw)
     if style % 2 == 0:
         return Feedback(fields=fields, activate=f["trig"], report=report, **kw)
     # generated instructor subclass: attributes on the class, custom condition
@@ -187,7 +192,7 @@ PRIOS = ["none", "none", "none", "high", "medium", "low", "highest", "lowest", "
 def random_feedback(rng, frac=False):
     f = {"cat": rng.choice(CATS), "prio": rng.choice(PRIOS), "trig": rng.random() < 0.7,
          "muted": rng.random() < 0.2, "kind": rng.choice(["Mistake", "Mistake", "Compliment", "Instructional", "Hint"]),
-         "els": False, "label": rng.choice(["a", "b", "c"]), "flds": rng.choice(["f1", "f2", "f3"]),
+         "els": False, "label": rng.choice(["a", "b", "c", "B"]), "flds": rng.choice(["f1", "f2", "f3"]),
          "correct": rng.choice(["T", "F", "N", "N"]), "valence": rng.choice(["neg", "neg", "zero", "pos", "none"]),
          "score": "none", "unscored": rng.random() < 0.15, "msg": "empty" if rng.random() < 0.15 else "text"}
     f["els"] = rng.random() < 0.3          # (carried by triggered feedback too, where it must not matter)
@@ -231,7 +236,7 @@ def random_feedback(rng, frac=False):
 def random_supp(rng):
     k = rng.choice(["cat", "catlabel", "catlabelf", "label", "labelf", "catf"])
     return {"k": k, "cat": rng.choice(CATS[1:7]) if k.startswith("cat") else "-",
-            "label": rng.choice(["a", "b", "c"]) if k != "cat" else "-",
+            "label": rng.choice(["a", "b", "c", "B"]) if k != "cat" else "-",
             "fld": rng.choice(["f1", "f2", "f3", "k1", "j1", "k2"]) if k.endswith("f") else "-"}
 
 
@@ -252,7 +257,7 @@ def record_chunk(seeds, extra):
             r = rng.random()
             if r < 0.6 or not objs:
                 f = random_feedback(rng, frac)
-                objs.append(make_feedback(report, f, len(objs) + 1, style=rng.randint(0, 1)))
+                objs.append(make_feedback(report, f, len(objs) + 1, style=rng.randint(0, 2)))
                 ev.append({"e": "add", "f": {k: v for k, v in f.items() if k != "raw_score"}})
             elif r < 0.8:
                 s = random_supp(rng)
